@@ -46,21 +46,21 @@ var c14Targets = []c14Target{
 
 // Lexical detectors (outputs of generated programs never contain these tokens inside strings).
 var c14Detectors = map[string]*regexp.Regexp{
-	"optional-chain":          regexp.MustCompile(`\?\.[^0-9]`),
-	"nullish-coalescing":      regexp.MustCompile(`\?\?[^=]`),
-	"logical-assignment":      regexp.MustCompile(`\?\?=|\|\|=|&&=`),
-	"exponent-operator":       regexp.MustCompile(`\*\*`),
-	"bigint":                  regexp.MustCompile(`\b[0-9]+n\b`),
-	"class-static-blocks":     regexp.MustCompile(`\bstatic\s*\{`),
-	"async-await":             regexp.MustCompile(`\basync\s+function\b|\basync\s*\([^)]*\)\s*=>|\basync\s+[a-zA-Z_$][\w$]*\s*=>|\basync\s+[\[a-zA-Z_$#*"']`),
-	"async-generator":         regexp.MustCompile(`\basync\s+function\s*\*|\basync\s*\*`),
-	"for-await":               regexp.MustCompile(`\bfor\s+await\b`),
-	"optional-catch-binding":  regexp.MustCompile(`\bcatch\s*\{`),
-	"class-private-field":     regexp.MustCompile(`[^\w]#[a-zA-Z_]\w*\s*(=|;|\}|\n)`),
-	"class-private-method":    regexp.MustCompile(`#[a-zA-Z_]\w*\s*\(`),
+	"optional-chain":            regexp.MustCompile(`\?\.[^0-9]`),
+	"nullish-coalescing":        regexp.MustCompile(`\?\?[^=]`),
+	"logical-assignment":        regexp.MustCompile(`\?\?=|\|\|=|&&=`),
+	"exponent-operator":         regexp.MustCompile(`\*\*`),
+	"bigint":                    regexp.MustCompile(`\b[0-9]+n\b`),
+	"class-static-blocks":       regexp.MustCompile(`\bstatic\s*\{`),
+	"async-await":               regexp.MustCompile(`\basync\s+function\b|\basync\s*\([^)]*\)\s*=>|\basync\s+[a-zA-Z_$][\w$]*\s*=>|\basync\s+[\[a-zA-Z_$#*"']`),
+	"async-generator":           regexp.MustCompile(`\basync\s+function\s*\*|\basync\s*\*`),
+	"for-await":                 regexp.MustCompile(`\bfor\s+await\b`),
+	"optional-catch-binding":    regexp.MustCompile(`\bcatch\s*\{`),
+	"class-private-field":       regexp.MustCompile(`[^\w]#[a-zA-Z_]\w*\s*(=|;|\}|\n)`),
+	"class-private-method":      regexp.MustCompile(`#[a-zA-Z_]\w*\s*\(`),
 	"class-private-brand-check": regexp.MustCompile(`#[a-zA-Z_]\w*\s+in\b`),
-	"arrow":                   regexp.MustCompile(`=>`),
-	"template-literal":        regexp.MustCompile("`"),
+	"arrow":                     regexp.MustCompile(`=>`),
+	"template-literal":          regexp.MustCompile("`"),
 }
 
 var c14BigintKey = regexp.MustCompile(`[{,]\s*[0-9]+n\s*:`)
@@ -105,7 +105,11 @@ type c14Variant struct {
 
 var c14Variants = []c14Variant{
 	{"plain", func(o *api.TransformOptions) {}, "script"},
-	{"minify", func(o *api.TransformOptions) { o.MinifySyntax = true; o.MinifyWhitespace = true; o.MinifyIdentifiers = true }, "script"},
+	{"minify", func(o *api.TransformOptions) {
+		o.MinifySyntax = true
+		o.MinifyWhitespace = true
+		o.MinifyIdentifiers = true
+	}, "script"},
 	{"iife+minify-syntax", func(o *api.TransformOptions) { o.Format = api.FormatIIFE; o.MinifySyntax = true }, "script"},
 	{"esm", func(o *api.TransformOptions) { o.Format = api.FormatESModule }, "module"},
 }
@@ -224,10 +228,10 @@ export class K { static #p = 1; #q = 2; static { K.s = ns } m() { return this.#q
   get #g() { return 1 } static async *ag() { yield* [1n] } }
 export const lazy = () => import('./lazy.mjs'); export let o = {...json, named, def}; o.x ??= 2 ** 3; export default async function* () { try { yield 1 } catch { } }
 export * from './esm.mjs'; export * as star from './esm.mjs';`,
-	"cjs.cjs":  `exports.named = 1; module.exports.default = class { x = 1 }; exports.f = async () => { await 1 }; var {a, ...r} = exports; exports.r = r; exports.t = typeof require;`,
-	"esm.mjs":  "export let live = 1; export function bump() { live++ } export default class { static accessor_ = 1 } export const re = /(?<n>a)/s; export var big = 10n; export const tpl = `a${live}b`;",
-	"lazy.mjs": `const x = await Promise.resolve(1); export default x; export const m = import.meta.url;`,
-	"data.json": `{"a": 1, "b": [1, 2, {"c": null}]}`,
+	"cjs.cjs":    `exports.named = 1; module.exports.default = class { x = 1 }; exports.f = async () => { await 1 }; var {a, ...r} = exports; exports.r = r; exports.t = typeof require;`,
+	"esm.mjs":    "export let live = 1; export function bump() { live++ } export default class { static accessor_ = 1 } export const re = /(?<n>a)/s; export var big = 10n; export const tpl = `a${live}b`;",
+	"lazy.mjs":   `const x = await Promise.resolve(1); export default x; export const m = import.meta.url;`,
+	"data.json":  `{"a": 1, "b": [1, 2, {"c": null}]}`,
 	"entry2.cjs": `const e = require('./esm.mjs'); module.exports = {e, g: function*() { yield e }, o: {...e}}; class A { static x = 1; #y; static { } } module.exports.A = A; exports.h = a => a?.b ?? 1;`,
 }
 
